@@ -290,6 +290,40 @@ fn table_checks(r: &mut Rep) {
     if !t.is_empty() {
         r.viol("C08|PageTable::is_empty|false-for-zero-table", "table rezero", "");
     }
+    // whole-table copies: clone() and clone_from() reproduce the source byte for byte, whatever the destination held before
+    {
+        let mut src = Box::new(PageTable::new());
+        for i in [0usize, 7, 8, 200, 511] {
+            unsafe { *(&mut *src as *mut PageTable as *mut u64).add(i) = 0x0000_0001_2345_6000 + 0x1000 * i as u64 | 3 };
+        }
+        let mut dst: Box<PageTable> = Box::new((*src).clone());
+        r.ev(true);
+        if bytes(&dst) != bytes(&src) {
+            r.viol("C08|PageTable::clone|copy-differs-from-the-source", "table clone", "");
+        }
+        // destinations: full of other entries, a superset of the source, empty
+        for variant in 0..3 {
+            for k in 0..512usize {
+                let v = match variant { 0 => 0xffff_ffff_ffff_ffffu64, 1 => if k % 2 == 1 { 0x0000_0009_9999_9000 | 1 } else { 0 }, _ => 0 };
+                unsafe { *(&mut *dst as *mut PageTable as *mut u64).add(k) = v };
+            }
+            (*dst).clone_from(&*src);
+            r.ev(true);
+            if bytes(&dst) != bytes(&src) {
+                r.viol("C08|PageTable::clone_from|destination-keeps-entries-the-source-does-not-have", &format!("table clone_from variant {}", variant), "");
+            }
+        }
+        // after the source lost an entry, and from an empty source
+        unsafe { *(&mut *src as *mut PageTable as *mut u64).add(7) = 0 };
+        (*dst).clone_from(&*src);
+        let empty = PageTable::new();
+        let mut d2: Box<PageTable> = Box::new((*src).clone());
+        (*d2).clone_from(&empty);
+        r.ev(true);
+        if bytes(&dst) != bytes(&src) || !d2.is_empty() || bytes(&d2).iter().any(|&b| b != 0) {
+            r.viol("C08|PageTable::clone_from|destination-keeps-entries-the-source-does-not-have", "table clone_from after set_unused / from empty", "");
+        }
+    }
     // iter() / iter_mut() through the adapters that a hand-written iterator could implement itself (nth, skip, step_by, count,
     // last, size_hint, take/skip combinations as used by clean-up): the slots they yield are the slots indexing addresses
     {
